@@ -28,9 +28,13 @@ pub fn gen_legs(rng: &mut Rng, thorough: bool) -> Vec<LegSpec> {
             multiline: false,
         },
     ];
-    match rng.below(3) {
+    match rng.below(4) {
         0 => legs.push(LegSpec { leg: Leg::File { mmap: true }, multiline: false }),
         1 => legs.push(LegSpec { leg: Leg::Slice, multiline: true }),
+        2 => legs.push(LegSpec {
+            leg: Leg::Reader { cap: Some(rng.pick(CAPS)), script: vec![], tail: rng.range(1, 64), cycle: false },
+            multiline: true,
+        }),
         _ => legs.push(LegSpec {
             leg: Leg::Reader { cap: None, script: vec![], tail: 1 << 16, cycle: false },
             multiline: false,
